@@ -198,6 +198,7 @@ def ltf_plan(**args):
             dftlen = Lmin
 
         nseg = int(round_half_up((N - dftlen) / (xov * dftlen) + 1))
+        nseg = min(nseg, N - dftlen + 1)  # at most N-L+1 distinct segment positions
         if nseg == 1:
             dftlen = N
 
@@ -219,6 +220,7 @@ def ltf_plan(**args):
         L_j = int(L_arr[j])
         L_arr[j] = L_j
         averages = int(round_half_up(((N - L_j) / (1 - olap)) / L_j + 1))
+        averages = min(averages, N - L_j + 1)  # at most N-L+1 distinct segment positions
         navg_arr.append(averages)
 
         if averages == 1:
